@@ -371,12 +371,20 @@ def run(chk, tier, seed):
             for p in probes_small:
                 seqs.append([a, b, p])
     else:
-        base = [e for e in events]
-        for a, b in itertools.product(base, repeat=2):
-            for p in [e for e in events if e.endswith((":f", ":d"))]:
+        # depth 2: every ordered pair of the stateful sub-alphabet (every kind of hidden state the package has: shared
+        # dictionaries and drivers, differentiable jobs, refused calls, learned lists, MD engines, single precision,
+        # another parameter directory) in front of every probe of the medium probe set; depth 3 on the small sets.
+        # (the full alphabet squared in front of every event is 1.4e5 two-second executions: beyond the budget)
+        stateful2 = stateful + ["A4:d", "L2:d", "M2:d", "Q:f", "Q2:d", "PS:d", "P:d", "AL2:f", "D:d", "E2:D", "M:d"]
+        stateful2 = [e for e in dict.fromkeys(stateful2) if e in events]
+        probes_med = ["A:d", "A:D", "A2:d", "E2:d", "F:f", "F2:f", "L:f", "M:f", "H:d", "D:d", "AL:f", "A4:d", "PS:f", "P:d", "B2:f", "Q:f", "C:f"]
+        chk.extra["thorough_depth2_prefix_alphabet"] = stateful2
+        chk.extra["thorough_depth2_probes"] = probes_med
+        for a, b in itertools.product(stateful2, repeat=2):
+            for p in probes_med:
                 seqs.append([a, b, p])
-        for a, b, c in itertools.product(stateful, repeat=3):
-            for p in probes_small:
+        for a, b, c in itertools.product(stateful[:8], repeat=3):
+            for p in probes_small[:4]:
                 seqs.append([a, b, c, p])
     # drop duplicates, keep order
     seen = set()
